@@ -140,7 +140,7 @@ func siteOf(name string) (site, wrap) {
 	return dynamicSites()[si], contexts()[ci]
 }
 
-var c02Strings = []string{"neutral", "Ċč上", "ĠĢĨĩ", "ŻŽśŝ", `<b>`, `a"b`, `it's`, `&amp;`, `</p><script>alert(1)</script>`, `x" onclick="y`, `\`, `\"`, "\x00", "\x7f", "é", "😀", "a b", " lead", "trail ", "\n", "~☢", "~☢<", ">☢~", "☢", "~", "-->", "<!--", "`", "{}", "#{x}", "%s", "'", "&", "<", ">", "\"", "=", "/"}
+var c02Strings = []string{"neutral", "Ċč上", "ĠĢĨĩ", "ŻŽśŝ", "é<b>é>", `é" onfocus=é"x`, "😀&amp;", "日'本\"", "»<", `<b>`, `a"b`, `it's`, `&amp;`, `</p><script>alert(1)</script>`, `x" onclick="y`, `\`, `\"`, "\x00", "\x7f", "é", "😀", "a b", " lead", "trail ", "\n", "~☢", "~☢<", ">☢~", "☢", "~", "-->", "<!--", "`", "{}", "#{x}", "%s", "'", "&", "<", ">", "\"", "=", "/"}
 
 func c02(c *Ctx) {
 	c.Rep.TieObs = []string{"O-render", "O-rt (helpers, see C19)"}
